@@ -124,7 +124,8 @@ def run_property(prop: str, tier: str):
             per_fn[o.fn] = per_fn.get(o.fn, 0) + 1
             again.append(o)
     if again:
-        res2 = solve_all(again, timeout_s=3 * timeout, jobs=6)
+        from . import solve as _s2
+        res2 = _s2.solve_all(again, timeout_s=3 * timeout, jobs=8, use_cvc5=False)      # E-matching attempts only (four seeds / cut-offs)
         for o in again:
             if res2.get(o.name, ('unknown',))[0] == 'unsat':
                 v2 = res2[o.name]
